@@ -47,12 +47,22 @@ def run(ctx):
                "with the real passes on every observed (before, after) pair; the DCE theorem is unconditional, the CSE theorem covers merges "
                "satisfying merge_guard (same attribute list, not a graph output, no use in nested graphs, SSA side conditions); trimming of "
                "trailing omitted inputs / unused optional outputs by DCE is not modelled")
-    ctx.assume("Section hypotheses of C03_optimize_ir_sound_partial (stages without a model, each assumed to preserve evaluation): InlinePass, "
-               "FoldConstantsPass as a stage (its own theorem: C03_fold_graph_sound_partial under pe_ok / oracles), RewritePass (C05 rules + C07 "
-               "application), RemoveUnusedFunctionsPass, RemoveUnusedOpsetsPass, LiftConstantsToInitializersPass, "
-               "LiftSubgraphInitializersToMainGraphPass, DeduplicateInitializersPass, OutputFixPass, NameFixPass: covered per pass by the "
-               "before/after ORT + onnx.reference oracle; float outputs are compared up to round-off (tight for integer-valued data flows), "
-               "NaN / infinities must coincide, ints / bools / strings bit-equal")
+    ctx.assume("hypotheses of C03_optimize_ir_sound (all stages but Inline are models linked to C03 / C07 theorems), with what measures each: "
+               "(1) const_oracle - the Constant kernel returns the tensor its attribute denotes: lifted values compared bitwise with the Constant "
+               "evaluated by onnx.reference on every LiftConstants pair; (2) oracles - reference evaluator used for folding = runtime kernel, "
+               "Identity returns its input, truth value of a boolean scalar: original vs optimized models on onnxruntime and onnx.reference; "
+               "(3) pe_ok - op-specific partial evaluators replace a node by an equivalent segment: decision-trace correspondence + per-pass "
+               "before/after oracle on FoldConstantsPass; (4) rule_sound for every default rewrite rule - matched segment interchangeable with "
+               "its replacement in every environment: proved from the C05 theorems for three families (Relu.Relu, Dropout in inference mode, "
+               "x*1 with the constant produced inside the match: Opt/RuleBridge.v), for the others it is what C05 states per family in its own "
+               "element semantics and what the per-pass before/after oracle on RewritePass observes; rules whose side condition is a fact about "
+               "values produced outside the match (initializer equal to 1, declared element type or shape) do not fit this interface (they need "
+               "an environment invariant); (5) InlinePass preserves evaluation (analogue for the builder's inliner: C18_inline_eq_call_node): "
+               "per-pass before/after oracle on InlinePass on models with functions")
+    ctx.assume("RemoveUnusedFunctions / RemoveUnusedOpsets do not change the meaning of (graph, initializer table): a call is the kernel sem dom op, "
+               "neither table is read by the evaluator; OutputFixPass is modelled for duplicated outputs of the main graph only (a graph input "
+               "listed as output is renamed by the real pass: not modelled); NameFixPass = C07's namefix under namefix_okb; float outputs are "
+               "compared up to round-off (tight for integer-valued data flows), NaN / infinities must coincide, ints / bools / strings bit-equal")
     ctx.trust("translator harness/c03_pipeline.py (Python ast, fail-closed) -> coq/Gen/OptPipeline.v; the shape predicate pipeline_ok "
               "(coq/Opt/Pipeline.v) states what the soundness argument needs of the pass list")
     info = regenerate(ctx)
